@@ -70,6 +70,11 @@ pub struct BodyPlan {
     /// (two slices), 2 = `take(n).read_to_end()` (waits for n bytes: not for the "never waits" checks),
     /// 3 = two reads of the schedule, then `read_to_end` / `read_to_string` for the rest
     pub read_api: u8,
+    /// how the chunked body was written (to re-encode it with other line endings)
+    pub chunk_specs: Vec<ChunkSpec>,
+    pub last_chunk_line: Vec<u8>,
+    /// the chunk data (and size lines) end in a bare LF: tolerated by lenient readers, refused by strict ones
+    pub lf_line_endings: bool,
     /// description of the injected damage, if any
     pub damage: String,
     /// offset at which the wire was cut (C02), if it was
@@ -136,7 +141,17 @@ pub fn gen_extra_headers(g: &mut G) -> Vec<(String, Vec<u8>)> {
     let mut h = Vec::new();
     let n = g.below(4);
     for i in 0..n {
-        h.push((format!("X-Pad-{}", i), vec![b'v'; g.size(9000)]));
+        let sz = g.size(9000);
+        // (no draw) fields that speak of sizes and ranges without framing anything: a partial-content range,
+        // an uncompressed-size hint, a digest - the body is as long as its framing says, whatever they say
+        match sz % 6 {
+            1 => {
+                g.probe("header-that-talks-about-sizes-without-framing");
+                h.push(("Content-Range".to_string(), format!("bytes 0-{}/{}", sz, sz + 601).into_bytes()));
+            }
+            3 => h.push((["X-Content-Length", "X-Uncompressed-Content-Length", "Content-Digest", "Accept-Ranges"][(sz / 6) % 4].to_string(), format!("{}", sz).into_bytes())),
+            _ => h.push((format!("X-Pad-{}", i), vec![b'v'; sz])),
+        }
     }
     if n > 0 {
         g.probe("extra-headers");
@@ -257,6 +272,9 @@ pub fn gen_plan(g: &mut G, max_payload: usize) -> BodyPlan {
         payload,
         chunk_lens: chunks.iter().map(|c| c.len).collect(),
         chunk_style: styles,
+        chunk_specs: chunks.clone(),
+        last_chunk_line: last.to_vec(),
+        lf_line_endings: false,
         garbage,
         wire,
         declared_len: len,
@@ -282,6 +300,7 @@ pub fn gen_plan(g: &mut G, max_payload: usize) -> BodyPlan {
             0 => 1,
             1 => 2,
             2 => 3,
+            3 => 4,
             _ => 0,
         },
         damage: String::new(),
@@ -313,6 +332,9 @@ pub fn plan_from_payload(g: &mut G, payload: Vec<u8>, mut headers: Vec<(String, 
         payload,
         chunk_lens: chunks.iter().map(|c| c.len).collect(),
         chunk_style: styles,
+        chunk_specs: chunks.clone(),
+        last_chunk_line: b"0".to_vec(),
+        lf_line_endings: false,
         garbage: 0,
         declared_len: len,
         script: Script::from_wire(&wire.bytes, &segs, End::Fin),
@@ -338,6 +360,24 @@ pub fn plan_from_payload(g: &mut G, payload: Vec<u8>, mut headers: Vec<(String, 
 }
 
 impl BodyPlan {
+    /// Re-encode a chunked body with a bare LF after every chunk's data (and, for every second chunk, after
+    /// its size line): same payload, same chunking.  Lenient readers take it, strict ones refuse it; the
+    /// caller re-derives segmentation and script from the new wire.
+    pub fn relax_line_endings(&mut self) {
+        assert!(self.framing == Framing::Chunked);
+        let specs: Vec<ChunkSpec> = self.chunk_specs.iter().enumerate().map(|(i, c)| ChunkSpec { eol_data: b"\n", eol_size: if i % 2 == 1 { b"\n" } else { c.eol_size }, ..c.clone() }).collect();
+        let garbage: Vec<u8> = self.wire.bytes[self.wire.frame_end..].to_vec();
+        let mut wire = Wire::default();
+        wire.bytes = self.wire.bytes[..self.wire.head_len].to_vec();
+        wire.head_len = self.wire.head_len;
+        wire.targets.push(wire.head_len - 1);
+        wire.targets.push(wire.head_len - 2);
+        httpref::encode_body(&mut wire, self.framing, &self.payload, &specs, &self.last_chunk_line, &garbage);
+        self.wire = wire;
+        self.chunk_specs = specs;
+        self.lf_line_endings = true;
+    }
+
     /// Give every payload octet a new value, in the payload and at its place in the wire (the framing
     /// depends on lengths only).
     pub fn repaint_payload(&mut self, f: impl Fn(usize, u8) -> u8) {
@@ -393,6 +433,7 @@ impl BodyPlan {
                 (ReadMode::Sizes(..), 1) => "+vectored",
                 (ReadMode::Sizes(..), 2) => "+take_to_end",
                 (ReadMode::Sizes(..), 3) => "+then_read_to_end",
+                (ReadMode::Sizes(..), 4) => "+then_helper",
                 _ => "",
             },
             self.garbage > 0,
@@ -433,7 +474,7 @@ impl BodyPlan {
             segs.join(","),
             self.end,
             self.read_mode,
-            ["read", "read_vectored", "take+read_to_end", "two reads, then read_to_end/read_to_string"][self.read_api.min(3) as usize],
+            ["read", "read_vectored", "take+read_to_end", "two reads, then read_to_end/read_to_string", "two reads, then bytes()/write_to()"][self.read_api.min(4) as usize],
             self.rereads,
             self.faults.read_eintr,
             self.faults.coalesce,
@@ -468,7 +509,20 @@ pub struct Observed {
     pub sink_writes: Vec<(u64, usize)>,
 }
 
+/// formats into nothing: rendering an error is code of the library, too
+struct NullFmt;
+impl std::fmt::Write for NullFmt {
+    fn write_str(&mut self, _s: &str) -> std::fmt::Result {
+        Ok(())
+    }
+}
+
 pub fn err_kind(e: &attohttpc::Error) -> String {
+    // what callers do with an error first: print it (both ways), ask for its source
+    {
+        use std::fmt::Write;
+        let _ = write!(NullFmt, "{} {:?} {:?}", e, e, std::error::Error::source(e).map(|s| s.to_string()));
+    }
     match e.kind() {
         attohttpc::ErrorKind::Io(io) => format!("Io({:?})", io.kind()),
         attohttpc::ErrorKind::InvalidResponse(k) => format!("InvalidResponse({:?})", k),
@@ -481,6 +535,10 @@ pub fn err_kind(e: &attohttpc::Error) -> String {
 }
 
 pub fn io_kind(e: &std::io::Error) -> String {
+    {
+        use std::fmt::Write;
+        let _ = write!(NullFmt, "{} {:?}", e, e);
+    }
     // InvalidResponse errors are wrapped as io::ErrorKind::Other with the library error inside
     if let Some(inner) = e.get_ref() {
         if let Some(a) = inner.downcast_ref::<attohttpc::Error>() {
@@ -522,6 +580,12 @@ enum Body {
 }
 
 impl Body {
+    fn read_some(&mut self, b: &mut [u8]) -> std::io::Result<usize> {
+        match self {
+            Body::Whole(r) => r.read(b),
+            Body::Split(r) => r.read(b),
+        }
+    }
     fn reader(self) -> Box<dyn Read> {
         match self {
             Body::Whole(r) => Box::new(r),
@@ -644,6 +708,63 @@ pub fn caller_with(plan: &BodyPlan, stop_on_block: bool, tweak: impl FnOnce(atto
     // response itself (same methods, their own implementations)
     let mut resp = if (plan.payload.len() + plan.wire.head_len) % 4 == 1 { Body::Split(resp.split().2) } else { Body::Whole(resp) };
     match &plan.read_mode {
+        ReadMode::Sizes(sizes, _) if plan.read_api == 4 && !plan.via_text_reader => {
+            // two reads of the schedule through `Read`, then one of the consuming helpers for the rest of
+            // the body: what the helper returns continues where the reads stopped
+            let mut buf = vec![0u8; sizes.iter().copied().max().unwrap_or(1).max(1)];
+            let mut ended = false;
+            for j in 0..2usize {
+                let sz = sizes[j % sizes.len()];
+                let t_in = attosim::now_ns();
+                let handed_before = o.output.len();
+                let r = resp.read_some(&mut buf[..sz]);
+                let t_out = attosim::now_ns();
+                let res = match &r {
+                    Ok(n) => {
+                        o.output.extend_from_slice(&buf[..*n]);
+                        Ok(*n)
+                    }
+                    Err(e) => Err(io_kind(e)),
+                };
+                let terminal = match &r {
+                    Ok(0) => sz > 0,
+                    Ok(_) => false,
+                    Err(e) => e.kind() != std::io::ErrorKind::Interrupted,
+                };
+                let handed_before = if res.is_err() { o.output.len() } else { handed_before };
+                o.calls.push(Call { what: "read", size: sz, t_in, t_out, res, handed_before });
+                if terminal {
+                    ended = true;
+                    break;
+                }
+            }
+            if !ended {
+                let t_in = attosim::now_ns();
+                let handed_before = o.output.len();
+                let len = plan.payload.len();
+                let mut v = Vec::new();
+                let r: Result<(), attohttpc::Error> = if len % 2 == 0 {
+                    resp.bytes().map(|b| v = b)
+                } else {
+                    let mut stamps = Vec::new();
+                    resp.write_to(Collect { out: &mut v, stamps: &mut stamps, cap: if len % 5 == 1 { 1000 } else { 0 }, eintr_every: 0, calls: 0 }).map(|_| ())
+                };
+                let t_out = attosim::now_ns();
+                let got = v.len();
+                o.output.extend_from_slice(&v);
+                if got > 0 {
+                    o.calls.push(Call { what: "read", size: got, t_in, t_out, res: Ok(got), handed_before });
+                }
+                let res = match r {
+                    Ok(()) => Ok(0),
+                    Err(e) => Err(match e.kind() {
+                        attohttpc::ErrorKind::Io(io) => format!("Io({:?})", io.kind()),
+                        _ => format!("Io(Other<{}>)", err_kind(&e)),
+                    }),
+                };
+                o.calls.push(Call { what: "read", size: 1, t_in, t_out, res, handed_before: o.output.len() });
+            }
+        }
         ReadMode::Sizes(sizes, _) => {
             let mut resp: Box<dyn Read> = if plan.via_text_reader { resp.text_reader(if plan.text_charset_implicit { None } else { plan.text_charset }) } else { resp.reader() };
             let mut i = 0usize;
